@@ -1461,6 +1461,50 @@ func runC14(w *World, r *Report) {
 			}
 		}
 	}
+	if !okRoots {
+		// the roots are inspected by a helper: its len(roots) == 0 edge leads only to error returns, and the helper's
+		// failure leads only to cancel in LoadDag
+		for _, d := range deepCalls(fn, byName(dagM("GetRoots")), deepDepth) {
+			if len(d.chain) == 0 {
+				continue
+			}
+			h := d.c.Parent()
+			rv := callValue(d.c)
+			helperOK := false
+			for _, b := range h.Blocks {
+				for i := range b.Succs {
+					for _, ft := range edgeFacts(Edge{b, i}) {
+						if ft.kind != fEq {
+							continue
+						}
+						px, _, okx := lenExpr(ft.x)
+						if k, isK := intConst(ft.y); okx && isK && k == 0 && rv != nil && px == pathOf(rv) {
+							helperOK = true
+							walkFrom(nil, Edge{b, i}.To(), nil, func(x ssa.Instruction) bool {
+								if ret, isRet := x.(*ssa.Return); isRet {
+									if successReturn(ret) {
+										helperOK = false
+									}
+									return true
+								}
+								return false
+							})
+						}
+					}
+				}
+			}
+			top := d.chain[0]
+			callerOK := len(failErrNonNil(top)) > 0
+			for _, fe := range failErrNonNil(top) {
+				if !leadsOnlyToCancel(fe, cancel, loaded) {
+					callerOK = false
+				}
+			}
+			if helperOK && callerOK && len(d.chain) == 1 {
+				okRoots = true
+			}
+		}
+	}
 	r.check(okRoots, "failure-leads-to-cancel", "LoadDag/no-root", w.Pos(fn.Pos()), "a stream without a root vertex aborts the load", "len(roots) == 0 does not lead to cancel")
 	// already loaded → cancel
 	okAlready := false
